@@ -474,6 +474,42 @@ def _shift_table(rep, hs):
     else:
         rep.fail('R-SHIFT', fb.module.rel, fb.qual, 'explainer:helper:%s' % fb.node.name, 'explain_binary does not hand the requested intervals to both operands', fb.node.lineno)
     table[fb.node.name] = 0
+    # the arithmetic helpers: the value of x*y, x+y, |x| ... changes with the magnitude of its operands at the requested samples, so each operand is
+    # asked for all of them (R-SUPPORT) -- a helper that narrows the request by looking at the signals (`only where the other factor is non-zero`)
+    # drops, at a sample where both factors are 0, both of them: re-assigning the two unreported samples makes the product anything
+    ARITH = ('abs', 'sqrt', 'exp', 'pow', 'addition', 'multiplication', 'subtraction', 'division', 'log', 'ln', 'negate', 'neg')
+    fu = resolve_alias(hs, 'unary')
+    for an in ARITH:
+        fa = hs.get(an)
+        if fa is None:
+            continue
+        rep.analysed(fa)
+        params = [a.arg for a in fa.node.args.args]
+        body = [st for st in fa.node.body if not (isinstance(st, ast.Expr) and isinstance(st.value, ast.Constant))]
+        ok = False
+        if len(body) == 1 and isinstance(body[0], ast.Return) and body[0].value is not None:
+            v = body[0].value
+            iv = params[-1]
+
+            def same(e):
+                if isinstance(e, ast.Call) and isinstance(e.func, ast.Name) and e.func.id == 'list' and len(e.args) == 1:
+                    e = e.args[0]
+                if isinstance(e, ast.Subscript) and isinstance(e.slice, ast.Slice) and e.slice.lower is None and e.slice.upper is None:
+                    e = e.value
+                return isinstance(e, ast.Name) and e.id == iv
+            if isinstance(v, ast.Call) and isinstance(v.func, ast.Name) and v.func.id in (fb.node.name, fu.node.name if fu is not None else '') and v.args and same(v.args[-1]):
+                ok = True
+            elif same(v) and len(params) == 2:
+                ok = True
+            elif isinstance(v, ast.Tuple) and len(v.elts) == len(params) - 1 and all(same(e) for e in v.elts):
+                ok = True
+        slot = 'explainer:helper:%s:support' % fa.node.name
+        if ok:
+            rep.ok('R-SUPPORT', fa.module.rel, fa.qual, slot, 'every operand is asked for all requested samples', fa.node.lineno)
+        else:
+            rep.fail('R-SUPPORT', fa.module.rel, fa.qual, slot, 'the helper of an arithmetic operator does not hand the requested samples to its operands unchanged: the value of the '
+                     'operator depends on the magnitude of every operand at every requested sample (for a product: where both factors are 0 a narrowing by "the other factor is '
+                     'non-zero" reports neither, and re-assigning both makes the product anything)', fa.node.lineno)
     rep._shift_table = table
     return table
 
@@ -960,6 +996,39 @@ def check_accumulation(ix, rep, cls, rule='R-ACCUM'):
                         sites.append((f, st))
     if merging:
         rep.ok(rule, etype.module.rel, etype.name + '.__setitem__', 'merge', 'storing under an existing name merges the intervals (%d store sites)' % len(sites), etype.node.lineno)
+        # ... on every path: a path that returns without storing loses the new intervals, unless it is taken only when there are none.  (An "already
+        # covered" shortcut that compares with the span of the stored list -- first begin to last end -- drops an interval lying in a gap.)
+        from sa import flow as _flow20
+        ivp = si.node.args.args[-1].arg
+        cfg = _flow20.CFG(si.node)
+
+        def _is_store(st):
+            return st is not None and any(isinstance(c, ast.Call) and isinstance(c.func, ast.Attribute) and c.func.attr == '__setitem__' for c in ast.walk(st)) \
+                and not isinstance(st, (ast.If, ast.For, ast.While, ast.FunctionDef))
+        blocked = {n for n in cfg.nodes() if _is_store(cfg.stmt[n])}
+        # arms taken only when the new intervals are empty
+        for n in cfg.nodes():
+            st = cfg.stmt[n]
+            if isinstance(st, ast.If):
+                t = ast.unparse(st.test).replace(' ', '')
+                if t in ('not%s' % ivp, 'len(%s)==0' % ivp, '%s==[]' % ivp, 'not%s:' % ivp):
+                    for x in st.body:
+                        for y in ast.walk(x):
+                            if cfg.node(y) is not None:
+                                blocked.add(cfg.node(y))
+        seen, stack = set(), [cfg.entry]
+        while stack:
+            n = stack.pop()
+            if n in seen or n in blocked:
+                continue
+            seen.add(n)
+            stack.extend(cfg.succ[n])
+        if cfg.exit in seen:
+            rep.fail(rule, si.module.rel, si.qual, 'merge:every-path', '__setitem__ can return without storing although the new list of intervals is not empty: what a later visit of '
+                     'the same variable or sub-formula adds is dropped (a shortcut that compares with the span of the stored intervals loses an interval lying in a gap between them)',
+                     si.node.lineno)
+        else:
+            rep.ok(rule, si.module.rel, si.qual, 'merge:every-path', 'every path with new intervals stores the union', si.node.lineno)
     else:
         explicit = all('interval_union' in ast.unparse(st.value) or '.get(' in ast.unparse(st.value) for f, st in sites)
         if sites and explicit:
